@@ -301,6 +301,10 @@ def gen_unique_moving(ctx, k):
     rng = ctx.rng
     py = gen_krig_base(ctx)
     n = py['dbin']['n']
+    if rng.random() < .5:      # samples whose variables are all undefined: both neighbourhoods must leave them out
+        for i in rng.sample(range(n), rng.choice([1, 2])):
+            if sum(1 for j in range(n) if py['dbin']['z'][0][j] is not None) > n - 2: 
+                for col in py['dbin']['z']: col[i] = None
     nmaxi = rng.choice([n, n + 3, 1000]); nmini = rng.choice([1, 1, 2])
     radius = rng.choice([None, F(10 ** 6)])
     py['mv'] = (nmini, nmaxi, radius); py['mode'] = 2
@@ -317,6 +321,10 @@ def compare_unique_moving(ctx, py, sxc, res, mcases):
         return False
     found = False
     zs = zscale_of(py)
+    db = py['dbin']
+    usable = sum(1 for i in range(db['n']) if (not db['sel'] or db['sel'][i]) and any(col[i] is not None for col in db['z']))
+    if py['mv'][0] > usable:      # premise nmini <= number of usable samples does not hold: _moving refuses, by specification
+        ctx.dist('p2:nmini-above-usable'); ctx.cov['tie_excluded'] += len(U); return False
     for u, m in zip(U, M):
         ctx.count('p2:%s:%d' % (sx_str(sxc)[:1200], u['it']), bool(u['nbgh']))
         if u['nbgh'] != m['nbgh']:
